@@ -57,7 +57,7 @@ struct StreamRunner {
             b.clear(); StreamCase c;
             while (b.size() < batch) { if (!read_case(in, c)) { eof = true; break; } b.push_back(c); }
             if (b.empty()) break;
-            if (now_s() - t0 > deadline_s) { cut = true; continue; }     // keep draining the pipe, stop executing
+            if (now_s() - t0 > deadline_s) { cut = true; break; }        // deadline: stop reading (the producer sees a closed pipe and exits)
             size_t from = 0;
             while (from < b.size()) {
                 ctl->cur = ~0ULL; fflush(stdout);
